@@ -145,6 +145,13 @@ Theorem c09_short_len_never_admits : forall md5 chk c sd salt payload e a b c0 d
 Proof. exact short_len_never_admits. Qed.
 Print Assumptions c09_short_len_never_admits.
 
+(** Whatever the startup packet contains, Client::startup panics only on a PasswordMessage length
+    (the unterminated-parameter panic of parse_params is gone since 5c1953d). *)
+Theorem c09_startup_panic_only_password_len : forall md5 chk c sd salt payload rest e,
+  out (startup md5 chk c sd salt payload rest e) = TaskPanic -> read_password chk rest = PwPanic.
+Proof. exact startup_panic_only_password_len. Qed.
+Print Assumptions c09_startup_panic_only_password_len.
+
 (** While shutting down every non-admin login is refused with the administrator-command error,
     before any lookup, challenge or server contact. *)
 Theorem c09_shutdown_gate : forall md5 chk c salt payload rest e name db,
@@ -329,4 +336,17 @@ Proof. vm_compute. reflexivity. Qed.
 Example replay_hypothesis_needed :
   out (entry toy true ex_cfg false ex_salt (ex_startup_alice_db1 ++ password_frame (pg_md5 toy alice apw [9;9;9;9]%N)) ex_env)
   = PoolAdmitted db1 alice.
+Proof. vm_compute. reflexivity. Qed.
+
+(** names are UTF-8 (5c1953d): "Zo" C3 AB is the user Zoe-with-diaeresis as configured; the Latin-1 byte EB
+    is not UTF-8 and is decoded to U+FFFD; parameters after an empty name are ignored; a value may be empty *)
+Example ident_utf8 : ident [117;115;101;114;0;90;111;195;171;0;0]%N = IdOk [90;111;195;171]%N [90;111;195;171]%N.
+Proof. vm_compute. reflexivity. Qed.
+Example ident_latin1_is_lossy : ident [117;115;101;114;0;90;111;235;0;0]%N = IdOk [90;111;239;191;189]%N [90;111;239;191;189]%N.
+Proof. vm_compute. reflexivity. Qed.
+Example ident_stops_at_empty_name :      (* user=alice NUL-name database=db1: database is not read *)
+  ident ([117;115;101;114;0]%N ++ alice ++ [0;0;100;97;116;97;98;97;115;101;0]%N ++ db1 ++ [0;0]%N) = IdOk alice alice.
+Proof. vm_compute. reflexivity. Qed.
+Example ident_empty_value :              (* user=alice database="" *)
+  ident ([117;115;101;114;0]%N ++ alice ++ [0;100;97;116;97;98;97;115;101;0;0;0]%N) = IdOk alice [].
 Proof. vm_compute. reflexivity. Qed.
